@@ -63,7 +63,7 @@ func c10Probes(t *core.T, wd *sim.World, when string) {
 		// (1) automatic selection never takes staking/binding coins, whatever their maturity
 		var spendable int64
 		locked := 0
-		for _, o := range v.Outs {
+		for _, o := range v.SortedOuts() {
 			if o.Spent || !o.HasHash || !k.Owned[o.Hash] || o.Value == 0 {
 				continue
 			}
@@ -105,7 +105,7 @@ func c10Probes(t *core.T, wd *sim.World, when string) {
 		}
 		// (2) withdrawals the wallet builds carry the sequence consensus requires and verify
 		probes := 0
-		for _, o := range v.Outs {
+		for _, o := range v.SortedOuts() {
 			if probes >= 4 {
 				break
 			}
@@ -217,7 +217,7 @@ func c10Case(t *core.T, maxSteps int) {
 		// count boundary-sensitive deposits observed at this height
 		v, _ := sim.ViewOfChain(wd.N.BestChain())
 		owned := wd.AllOwned()
-		for _, o := range v.Outs {
+		for _, o := range v.SortedOuts() {
 			if _, mine := owned[o.Hash]; mine && o.HasHash && !o.Spent && o.Class != sim.ClassStd {
 				tag := boundaryTag(v, o)
 				if tag == "one-below" || tag == "at-boundary" {
